@@ -329,6 +329,15 @@ func (v *FnVC) declare(name, sort string) *Term {
 	return Var(name, sort)
 }
 
+// freshVal is fresh() with slices destructured into four integer constants.
+func (v *FnVC) freshVal(prefix, sort string) *Term {
+	if sort == SSlice {
+		p := sanitize(prefix)
+		return MkSlice(v.fresh(p+".ref", SInt), v.fresh(p+".off", SInt), v.fresh(p+".len", SInt), v.fresh(p+".cap", SInt))
+	}
+	return v.fresh(prefix, sort)
+}
+
 func (v *FnVC) fresh(prefix, sort string) *Term {
 	v.counters["fresh"]++
 	return v.declare(fmt.Sprintf("%s!%d", sanitize(prefix), v.counters["fresh"]), sort)
@@ -338,6 +347,11 @@ func (v *FnVC) fresh(prefix, sort string) *Term {
 func (v *FnVC) define(prefix string, t *Term) *Term {
 	if t.Op == "var" || t.Op == "lit" {
 		return t
+	}
+	if t.Sort == SSlice {
+		// slices stay destructured so that accessors simplify syntactically
+		p := sanitize(prefix)
+		return MkSlice(v.define(p+".ref", SRef(t)), v.define(p+".off", SOff(t)), v.define(p+".len", SLen(t)), v.define(p+".cap", SCap(t)))
 	}
 	c := v.fresh(prefix, t.Sort)
 	v.defs = append(v.defs, App("=", SBool, c, t))
@@ -398,21 +412,17 @@ func (v *FnVC) stableRef(heap string, ref *Term) bool {
 	if v.modAll || v.entry == nil {
 		return false
 	}
-	if ref.Op != "s-ref" || len(ref.Args) != 1 || ref.Args[0].Op != "var" {
-		if ref.Op == "var" && strings.HasPrefix(ref.Name, "strlit_") {
-			return true
-		}
+	if ref.Op != "var" {
 		return false
 	}
-	name := ref.Args[0].Name
-	if !v.paramConsts[name] {
+	if !strings.HasPrefix(ref.Name, "strlit_") && !v.paramConsts[ref.Name] {
 		return false
 	}
 	for _, m := range v.mods {
 		if m.heap == heap && m.ref.String() == ref.String() {
 			return false
 		}
-		if m.heap == heap && m.kind == "array" && m.ref.Op != "s-ref" {
+		if m.heap == heap && m.kind == "array" && !(m.ref.Op == "var" && v.paramConsts[m.ref.Name]) {
 			return false // a modifies target we cannot compare syntactically
 		}
 	}
